@@ -67,7 +67,8 @@ Lemma manage_canary_inv : forall rs ann oc now cn listed items st0 cp,
     let do_create := negb (Nat.eqb (length (cn_create s)) 0) && negb (cl_paused l) && negb (cl_failed l) in
     cp_creates cp = (if do_create then cn_create s else []) /\ cp_deletes cp = cn_delete s /\
     cp_failed cp = cl_failed l /\ cp_paused cp = cl_paused l /\
-    cp_status cp = MkErsStatus (if cl_failed l then RS_CANARY_FAILED else RS_CANARY) (cn_desired s) (cn_current s)
+    cp_status cp = MkErsStatus (if cl_failed l && match oc with Some _ => true | None => false end
+                                then RS_CANARY_FAILED else RS_CANARY) (cn_desired s) (cn_current s)
                                (cn_ready s) (cn_available s) (rs_ignored st0) conds4.
 Proof.
   intros rs ann oc now cn listed items st0 cp H. unfold manage_canary_status in H.
